@@ -1566,6 +1566,19 @@ func (w *htlcWorkload) paramsTx(st *htState) (rig.Tx, bool) {
 	if !ok {
 		return rig.Tx{}, false
 	}
+	if rng.Intn(4) == 0 {
+		// one update in four is rolled back by the message that follows it (a proposal or transaction whose later message
+		// fails), and it loosens every limit a hundredfold first: nothing of it may be in force afterwards
+		for k := range p.AssetParams {
+			p.AssetParams[k].SupplyLimit.Limit = p.AssetParams[k].SupplyLimit.Limit.MulRaw(100).AddRaw(1_000_000)
+			p.AssetParams[k].Active = true
+		}
+		tag.Note += "/loosened-and-rolled-back"
+		w.run.Count("parameter-update-rolled-back-by-the-next-message", 1)
+		from := w.r.Acc(acc)
+		return w.r.InjectRoute(from, tag, &htlctypes.MsgUpdateParams{Authority: w.r.GovAddr.String(), Params: p},
+			banktypes.NewMsgSend(from.Addr, from.Addr, sdk.NewCoins(sdk.NewCoin(rig.BondDenom, toInt(pow2(250)))))), true
+	}
 	for _, x := range p.AssetParams {
 		w.touched[x.Denom] = true
 	}
